@@ -439,7 +439,12 @@ func BatchFunc[T any](
 				out.err = err
 				return
 			}
-			c <- item
+			select {
+			case c <- item:
+			case <-bgCtx.Done():
+				// Close was called; the batcher may already be gone, so nobody is left to receive.
+				return
+			}
 		}
 	}()
 
